@@ -34,7 +34,7 @@ import (
 func init() {
 	core.Register(&core.Prop{
 		ID: "C20",
-		Rule: "E1 bounded-exhaustive: every multiset of <=k declarations from a 57-declaration pool (definitions, patterns, defaults, comprehensions, embedded disjunctions + data that repeats / partially repeats / refines / contradicts them, references and let into removable fields) x every partition into 1-2 files x file order; " +
+		Rule: "E1 bounded-exhaustive: every multiset of <=k declarations from a 62-declaration pool (definitions, patterns, defaults, comprehensions, embedded disjunctions + data that repeats / partially repeats / refines / contradicts them, references and let into removable fields) x every partition into 1-2 files x file order; " +
 			"every tools/trim/testdata archive unmutated and with each literal replaced by another literal of its kind. Non-trivial = packages where trim removed at least one declaration.",
 		Assumptions: []string{"comparison through canon with defaults resolved (TakeDefaults) and all fields (optional, hidden, definitions) included; closedness probes included"},
 		Run:         run, Replay: replay,
@@ -57,6 +57,7 @@ var pool = []string{
 	// a comprehension that ranges over a struct and writes back into it
 	`cd: port: 8080`, `for k, v in cs {cs: (k): cd}`,
 	// a field that is referenced only from inside a string interpolation
+	`md: *1 | *2 | int`, `ml: [...{mode: *"ro" | *"rw" | string}]`,
 	`iv: {name: string, url: "h-\(name)"}`, `#IS: {name: string, meta: host: "\(name).svc"}`, `is: #IS`,
 	// data side
 	`o: {a: 5}`, `o: {a: 5, b: 1}`, `o: {a: 5, b: 2}`, `o: b: 1`, `p: 1`, `p: 2`, `q: 2`, `e: kind: "a"`, `e: {kind: "a", p: 1}`, `e: {kind: "b", q: 2}`,
@@ -64,6 +65,7 @@ var pool = []string{
 	`s: foo: {x: 1, y: 2}`, `s: foo: x: 1`, `s: bar: {x: 2, y: 3}`, `r: t.x`, `let L = d`, `m: L`, `u: b: 1`, `w: b: 1`, `n: m: k: 1`, `g: 1`, `h: a: 5`, `v: x: 1`,
 	`cs: x: {port: 8080}`, `cs: y: {port: 9090}`,
 	`iv: name: "web"`, `#IS: name: "foo"`,
+	`md: 1`, `md: 2`, `ml: [{mode: "ro"}, {mode: "rw"}]`,
 }
 
 func resolvable(ds []string) bool {
